@@ -69,7 +69,10 @@ func (e *Engine) ownership(v ssa.Value, fn *ssa.Function, seen map[ssa.Value]boo
 		}
 		return "alias", "the address of field " + fieldOf(x).Name() + " of the argument"
 	case *ssa.IndexAddr:
-		return e.ownership(x.X, fn, seen)
+		if k, why := e.ownership(x.X, fn, seen); k != "fresh" {
+			return k, "the address of an element of " + strings.TrimPrefix(why, "the ")
+		}
+		return "fresh", ""
 	case *ssa.Slice:
 		return e.ownership(x.X, fn, seen)
 	case *ssa.UnOp:
@@ -226,6 +229,26 @@ func c14R1(e *Engine) {
 	if !e.anchor("R1", "attribute-value conversion functions (by signature)", len(convs) < 8) {
 		return
 	}
+	// helpers of the conversions (package-local functions they call that return references) are judged the same way
+	inSet := map[*ssa.Function]bool{}
+	for _, f := range convs {
+		inSet[f] = true
+	}
+	for i := 0; i < len(convs); i++ {
+		f := convs[i]
+		instrs(f, func(in ssa.Instruction) {
+			c, ok := in.(*ssa.Call)
+			if !ok || isBuiltin(c) {
+				return
+			}
+			g := c.Call.StaticCallee()
+			if g == nil || g.Blocks == nil || e.fnRole(g) != e.fnRole(f) || inSet[g] || g.Signature.Results().Len() != 1 || !isRefType(g.Signature.Results().At(0).Type()) {
+				return
+			}
+			inSet[g] = true
+			convs = append(convs, g)
+		})
+	}
 	for _, fn := range convs {
 		type site struct {
 			field string
@@ -256,18 +279,47 @@ func c14R1(e *Engine) {
 			k, why := e.ownership(st.Val, fn, map[ssa.Value]bool{})
 			sites = append(sites, site{n + "." + fieldOf(fa).Name(), in, k, why})
 		})
-		// elements appended to slices that end up in the result (e.g. BS elements)
-		instrs(fn, func(in ssa.Instruction) {
-			c, ok := in.(*ssa.Call)
-			if !ok || staticCalleeName(c) != "builtin.append" {
-				return
+		// elements put into slices and maps that end up in the result (BS elements, *string elements of sets, …)
+		refElem := func(t types.Type) bool {
+			switch t.Underlying().(type) {
+			case *types.Pointer, *types.Slice, *types.Map:
+				return true
 			}
-			for _, el := range variadicElems(c.Call.Args[1]) {
-				if _, isSlice := el.Type().Underlying().(*types.Slice); !isSlice {
-					continue
+			return false
+		}
+		instrs(fn, func(in ssa.Instruction) {
+			switch x := in.(type) {
+			case *ssa.Call:
+				if staticCalleeName(x) != "builtin.append" {
+					return
 				}
-				k, why := e.ownership(el, fn, map[ssa.Value]bool{})
-				sites = append(sites, site{"element of appended slice", in, k, why})
+				for _, el := range variadicElems(x.Call.Args[1]) {
+					if !refElem(el.Type()) {
+						continue
+					}
+					k, why := e.ownership(el, fn, map[ssa.Value]bool{})
+					sites = append(sites, site{"element appended to a result slice", in, k, why})
+				}
+			case *ssa.Store:
+				ia, ok := x.Addr.(*ssa.IndexAddr)
+				if !ok || !refElem(x.Val.Type()) {
+					return
+				}
+				// only containers made by this function (the result under construction)
+				if k, _ := e.ownership(ia.X, fn, map[ssa.Value]bool{}); k != "fresh" {
+					return
+				}
+				k, why := e.ownership(x.Val, fn, map[ssa.Value]bool{})
+				sites = append(sites, site{"element stored into a result slice", in, k, why})
+			case *ssa.MapUpdate:
+				if !refElem(x.Value.Type()) {
+					return
+				}
+				if k, _ := e.ownership(x.Map, fn, map[ssa.Value]bool{}); k != "fresh" {
+					return
+				}
+				k, why := e.ownership(x.Value, fn, map[ssa.Value]bool{})
+				sites = append(sites, site{"value stored into a result map", in, k, why})
 			}
 		})
 		for _, s := range sites {
